@@ -260,11 +260,13 @@ PROPS = {
         "confirm_tries": 2,
         "quick": [
             {"test": "TestC13Bind", "checks": 20000, "shards": 4},
+            {"test": "TestC13Options", "checks": 12000, "shards": 2},
             {"test": "TestC13Recursion", "checks": 800, "shards": 8},
             {"test": "TestC13RecursionEnum", "kind": "enum", "shards": 4, "env": {"VERIF_C13_ENUM_N": "2"}},
         ],
         "thorough": [
             {"test": "TestC13Bind", "checks": 1600000, "shards": 8},
+            {"test": "TestC13Options", "checks": 600000, "shards": 4},
             {"test": "TestC13Recursion", "checks": 32000, "shards": 16},
             {"test": "TestC13RecursionEnum", "kind": "enum", "shards": 16, "env": {"VERIF_C13_ENUM_N": "3"}},
         ],
